@@ -446,3 +446,12 @@ def _path_dup(env, mod, t, v, codec):
         return False
     names = [p for p in v[1] if isinstance(p, str)]
     return any(a == b for a, b in zip(names, names[1:]))
+
+
+
+@carve('xer-carriage-return-not-escaped', ['C02', 'C07', 'C13', 'C18', 'C19'])
+def _xer_cr(env, mod, t, v, codec):
+    """XER: a carriage return in a character string is written raw and comes back as a line feed."""
+    if codec != 'xer':
+        return False
+    return any_node(env, mod, t, v, lambda r, nv: isinstance(nv, str) and '\r' in nv)
